@@ -54,7 +54,7 @@ def entries(level='quick'):
     E = []
     full = level != 'quick'
     # ---- element-wise non-linearities
-    for shape in ([3], [2, 1, 2]) if full else ([3],):
+    for shape in ([3], [2, 1, 2], [1], [2]) if full else ([3],):
         E += [
             Entry('Exp%s' % shape, 'nonlin', lambda: T.Exp(), shape, dom_inv=(1e-3, 20.0), extra={'cls': 'Exp'}),
             Entry('Tanh%s' % shape, 'nonlin', lambda: T.Tanh(), shape, dom_inv=(-0.999, 0.999), extra={'cls': 'Tanh'}),
